@@ -114,7 +114,11 @@ def gen_filter_case(r, adversarial=False, offsets=False):
         opts["later_regions"] = [("R", "late%d" % i, 28.0 + 10 * i, 28.0, 33.0 + 10 * i, 33.0)
                                  for i in range(2)]
         opts["addregion"] = True
-    ops = gen.gen_path(r, regions, opts)
+    if r.random() < 0.4:
+        opts["wipe"] = r.random() < 0.35
+        ops = gen.gen_episode_path(r, regions, opts)
+    else:
+        ops = gen.gen_path(r, regions, opts)
     evs = gen.encode_path(ops)
     if adversarial:
         # sprinkle adversarial commands (may leave the dialect the theorems are about)
@@ -749,7 +753,50 @@ PLUGIN_PROGRAM = ["G28", "G1 X5 Y5 Z0.2 F3000", "G1 X15 Y15 E1", "G1 E0 F1800", 
                   "G20", "G1 X0.6 Y0.6", "G21", "G10", "G11", "G92 E0", "G1 X12 Y12 E-1", "M73 P5", "G4 P1"]
 
 
+def gen_two_prints(r):
+    """two consecutive prints: the first one is ended in an awkward state (exclusion switched off,
+    episode open, retraction owed, deferred command pending); the second must start clean"""
+    st0 = rand_settings(r)
+    ops = []
+    if r.random() < 0.7:
+        ops.append(("api", False, "addExcludeRegion",
+                    {"type": "RectangularRegion", "x1": 10.0, "y1": 10.0, "x2": 20.0, "y2": 20.0, "id": "a"}))
+    ops.append(("event", "PRINT_STARTED"))
+    prog1 = ["G28", "G1 X5 Y5 Z0.2 F3000", "G1 X6 Y5 E1"]
+    mess = r.sample(["at_off", "inside", "retract_inside", "deferred", "g91", "g20"], r.randint(1, 4))
+    for m in mess:
+        if m == "at_off":
+            prog1.append(("at", "ExcludeRegion", "off", False))
+        elif m == "inside":
+            prog1.append("G1 X15 Y15 E2")
+        elif m == "retract_inside":
+            prog1 += ["G1 X15 Y15", "G1 E0 F1800", "G1 E1"]
+        elif m == "deferred":
+            prog1 += ["G1 X15 Y15", "M117 hi", "M204 P500"]
+        elif m == "g91":
+            prog1.append("G91")
+        elif m == "g20":
+            prog1.append("G20")
+    for c in prog1:
+        if isinstance(c, tuple):
+            ops.append(c)
+        else:
+            ops.append(("gcode", c, impl.split_cmd(c)[0]))
+    ops.append(("event", r.choice(["PRINT_DONE", "PRINT_FAILED", "PRINT_CANCELLED", "PRINT_CANCELLING"])))
+    if r.random() < 0.3:
+        ops.append(("api", False, "addExcludeRegion",
+                    {"type": "RectangularRegion", "x1": 10.0, "y1": 10.0, "x2": 20.0, "y2": 20.0, "id": "b"}))
+    ops.append(("event", "PRINT_STARTED"))
+    for c in ["G28", "G1 X5 Y5 Z0.2 F3000", "G1 X15 Y15 E1", "G1 X16 Y16 E1.5", "M117 hi", "G1 X30 Y30",
+              "G1 X31 Y30 E2"]:
+        ops.append(("gcode", c, impl.split_cmd(c)[0]))
+    ops.append(("script", "gcode", "afterPrintDone"))
+    return plugin_case(ops, st0)
+
+
 def gen_plugin_case(r):
+    if r.random() < 0.3:
+        return gen_two_prints(r)
     st0 = rand_settings(r)
     ops = []
     ids = ["a", "b", "c"]
